@@ -141,12 +141,21 @@ def _impl_server(case, bodies, md5, data_cb, sum_cb, log):
                 self.wfile.write(body)
 
         def do_GET(self):  # noqa
-            if self.path.endswith('.md5'):
+            if case.get('redirect') and self.path == '/data.bin':
+                # the documented URL redirects to where the file is stored (mirror / CDN); the checksum is published next
+                # to the DOCUMENTED URL only
+                self._send(302, {'Location': '/store/0a1b2c/data.bin'}, b'')
+            elif self.path.startswith('/store/') and self.path.endswith('.md5'):
+                self._send(404, {}, b'not found')
+            elif self.path.endswith('.md5'):
                 self._send(*sum_cb(None))
             else:
                 self._send(*data_cb(None))
 
         def do_HEAD(self):  # noqa
+            if case.get('redirect') and self.path == '/data.bin':
+                self._send(302, {'Location': '/store/0a1b2c/data.bin'}, b'', with_body=False)
+                return
             log.append('head')
             if head in ('none', '403', '501'):
                 self._send(int(head) if head != 'none' else 405, {}, b'', with_body=False)
@@ -244,7 +253,7 @@ def tally(rep, case, impl_res, ans):
     if 'ok' in impl_res:
         rep.count('result:' + impl_res['ok']['result'])
         rep.count('data_requests:%d' % impl_res['ok']['log'].count('data'))
-    rep.count('transfer_encoding:%s%s' % (case.get('encoding', 'identity'), ' over a loopback HTTP server' if case.get('server') else ' (in-process mock)'))
+    rep.count('transfer_encoding:%s%s' % (case.get('encoding', 'identity'), ' over a loopback HTTP server' + (', data URL redirected' if case.get('redirect') else '') if case.get('server') else ' (in-process mock)'))
     rep.count('size_probe(HEAD):%s' % case.get('head', 'none'))
     rep.count('output_path:%s' % case.get('pathkind', 'path'))
     rep.count('checksum_file_format:%s' % (case.get('sumfmt') or ('name' if case.get('with_name', True) else 'bare')))
@@ -287,7 +296,7 @@ def gen(tier, rng):
                         if k % 18 == 4:
                             # the same behaviours over a real loopback HTTP connection, half of them gzip-encoded
                             yield dict(p=PID, prior=prior, ds=list(ds), ss=list(ss), head=['none', 'ok', '403'][k % 3],
-                                       server=True, encoding=['gzip', 'identity'][(k // 18) % 2],
+                                       server=True, encoding=['gzip', 'identity'][(k // 18) % 2], redirect=bool((k // 18) % 3 == 1),
                                        sumfmt=['name', 'bare_nl'][(k // 36) % 2])
                         if not q and ld <= 3:
                             yield dict(p=PID, prior=prior, ds=list(ds), ss=list(ss), head=HEADS[(k + 3) % 7])
